@@ -7,6 +7,7 @@ import (
 	"net"
 	"os"
 	"path/filepath"
+	"strconv"
 	"strings"
 	"testing"
 	"time"
@@ -131,135 +132,179 @@ func TestC29(t *testing.T) {
 				trusted = true
 			}
 		}
-		// headers
-		var hdr []string
-		spoof := false
-		realIP := rapid.SampledFrom([]string{"", "", "20.1.2.3", "20.255.255.255", "8.8.8.8", "2001:db8::5", "abc", "20.1.2.3, 1.1.1.1", " 20.1.2.3"}).Draw(rt, "xrealip")
-		realIP2 := ""
-		if realIP != "" {
-			hdr = append(hdr, randCase(rt, "X-Real-Ip", "xri")+": "+realIP)
-			spoof = true
-			if rapid.IntRange(0, 4).Draw(rt, "second") == 0 {
-				realIP2 = "20.9.9.9"
-				hdr = append(hdr, "X-Real-Ip: "+realIP2)
-			}
-		}
-		realPort := rapid.SampledFrom([]string{"", "", "4321", "abc", "70000"}).Draw(rt, "xrealport")
-		if realPort != "" {
-			hdr = append(hdr, randCase(rt, "X-Real-Port", "xrp")+": "+realPort)
-		}
-		xff := rapid.SampledFrom([]string{"", "", "20.4.5.6", "20.4.5.6, 30.2.2.2", "30.2.2.2, 20.4.5.6", "garbage", "20.4.5.6,"}).Draw(rt, "xff")
-		if xff != "" {
-			hdr = append(hdr, randCase(rt, "X-Forwarded-For", "xff")+": "+xff)
-			spoof = true
-		}
-		xfp := rapid.SampledFrom([]string{"", "", "5555", "5555, 6666", "x"}).Draw(rt, "xfp")
-		if xfp != "" {
-			hdr = append(hdr, randCase(rt, "X-Forwarded-Port", "xfp")+": "+xfp)
-		}
-		// a client may also try to have BFE's own address headers stripped by nominating them
-		// as hop-by-hop in its Connection header
-		if nom := rapid.SampledFrom([]string{"", "", "", "X-Real-Ip", "x-real-ip, x-real-port", "X-Forwarded-For", "close, X-Real-Ip, X-Real-Port, X-Forwarded-For"}).Draw(rt, "conn-nominates"); nom != "" {
-			hdr = append(hdr, "Connection: "+nom)
-			spoof = true
-		}
-		target := fmt.Sprintf("/c29/%d", n)
-		raw := fmt.Sprintf("GET %s HTTP/1.1\r\nHost: example.org\r\nConnection: close\r\n%s\r\n", target, joinCRLF(hdr))
-		cls := []string{}
-		if trusted {
-			cls = append(cls, "trusted")
-		} else {
-			cls = append(cls, "untrusted")
-		}
-		if peer.IP.To4() == nil {
-			cls = append(cls, "peer-v6")
-		}
-		if spoof {
-			cls = append(cls, "spoof-header")
-		}
-		rec.Case(fmt.Sprintf("%v|%s|%v", ranges, peer, hdr), spoof, cls...)
-		rec.Sample(map[string]any{"trust_ranges": ranges, "peer": peer.String(), "headers": hdr})
-		wit := map[string]any{"trust_ranges": ranges, "peer": peer.String(), "headers": hdr, "trusted_by_model": trusted, "table_loaded_via": via}
-		rec.Class("reload-via:" + via)
-
+		// 1..3 requests on one client connection (same socket peer), each with its own header set
+		nreq := rapid.IntRange(1, 3).Draw(rt, "requests-on-connection")
 		ln.SetNext(peer)
 		c, err := net.DialTimeout("tcp", addr, 5*time.Second)
 		if err != nil {
 			rt.Fatalf("rig: %v", err)
 		}
-		c.Write([]byte(raw))
-		_, m, _, perr := readOneResponse(c, "GET", 8*time.Second)
-		c.Close()
-		seen := w.seenFor(target)
-		w.forget(target)
-		if perr != nil || m == nil || m.Status != 200 || len(seen) != 1 || seen[0].Msg == nil {
-			// the rig itself failed (e.g. backend connect timeout on an overloaded machine):
-			// inconclusive, counted; the test fails as infrastructure only if this is frequent
-			rec.Class("rig-not-proxied")
-			rigFailures++
-			if rigFailures > 20 {
-				rt.Fatalf("rig: request not proxied %d times (err=%v, seen=%d)", rigFailures, perr, len(seen))
-			}
-			return
-		}
-		bf := lowerFields(seen[0].Msg)
-		wit["backend_saw"] = string(seen[0].Conn.Bytes())
-		routed := seen[0].Backend // b0 = c20 (client address inside 20/8), b1 = default
-		if !trusted {
-			if got := bf["x-real-ip"]; len(got) != 1 || !net.ParseIP(got[0]).Equal(peer.IP) {
-				if !rec.Fail(rt, "untrusted-x-real-ip", wit, "untrusted peer %s: backend got X-Real-Ip %q", peer, got) {
-					return
-				}
-			}
-			if got := bf["x-real-port"]; len(got) != 1 || got[0] != fmt.Sprint(peer.Port) {
-				if !rec.Fail(rt, "untrusted-x-real-port", wit, "untrusted peer %s: backend got X-Real-Port %q", peer, got) {
-					return
-				}
-			}
-			xf := strings.Join(bf["x-forwarded-for"], ", ")
-			parts := strings.Split(xf, ",")
-			last := strings.TrimSpace(parts[len(parts)-1])
-			if !net.ParseIP(last).Equal(peer.IP) {
-				if !rec.Fail(rt, "untrusted-xff-tail", wit, "untrusted peer %s: X-Forwarded-For %q does not end with the peer IP", peer, xf) {
-					return
-				}
-			}
-			if routed != "b1" {
-				if !rec.Fail(rt, "untrusted-condition-spoofed", wit, "untrusted peer %s was routed by req_cip_range(20/8) as if its client address were spoofed", peer) {
-					return
-				}
-			}
-			return
-		}
-		// trusted: documented precedence X-Real-Ip(+Port) else first of X-Forwarded-For(+Port)
-		wantIP, wantPort := "", ""
-		if realIP != "" {
-			wantIP, wantPort = realIP, realPort
-		} else if xff != "" {
-			wantIP = strings.TrimSpace(strings.SplitN(xff, ",", 2)[0])
-			if xfp != "" {
-				wantPort = strings.TrimSpace(strings.SplitN(xfp, ",", 2)[0])
-			}
-		}
-		ip := net.ParseIP(wantIP)
-		if ip == nil {
-			rec.Class("trusted-no-valid-header")
-			return
-		}
-		rec.Class("trusted-header-honoured-case")
-		if got := bf["x-real-ip"]; len(got) != 1 || !net.ParseIP(got[0]).Equal(ip) {
-			if !rec.Fail(rt, "trusted-x-real-ip", wit, "trusted peer %s with client address header %q: backend got X-Real-Ip %q", peer, wantIP, got) {
+		defer c.Close()
+		for ri := 0; ri < nreq; ri++ {
+			last := ri == nreq-1
+			if !c29Request(rt, rec, w, c, n, ri, last, ranges, peer, trusted, &rigFailures) {
 				return
 			}
 		}
-		in20 := ip.To4() != nil && ip.To4()[0] == 20
-		if (routed == "b0") != in20 {
-			if !rec.Fail(rt, "trusted-condition", wit, "trusted peer %s with client address %s: routed to %s", peer, ip, routed) {
-				return
-			}
-		}
-		_ = wantPort
 	})
+}
+
+// c29Request sends one request of the sequence and judges it; false ends the case.
+func c29Request(rt *rapid.T, rec *ev.Rec, w *world, c net.Conn, n, ri int, last bool, ranges any, peer *net.TCPAddr, trusted bool, rigFailures *int) bool {
+	// headers
+	var hdr []string
+	spoof := false
+	realIP := rapid.SampledFrom([]string{"", "", "20.1.2.3", "20.1.2.3", "20.255.255.255", "8.8.8.8", "2001:db8::5", "abc", "20.1.2.3, 1.1.1.1", " 20.1.2.3"}).Draw(rt, "xrealip")
+	realIP2 := ""
+	if realIP != "" {
+		hdr = append(hdr, randCase(rt, "X-Real-Ip", "xri")+": "+realIP)
+		spoof = true
+		if rapid.IntRange(0, 4).Draw(rt, "second") == 0 {
+			realIP2 = "20.9.9.9"
+			hdr = append(hdr, "X-Real-Ip: "+realIP2)
+		}
+	}
+	realPort := rapid.SampledFrom([]string{"", "", "4321", "4322", "52002", "abc", "70000"}).Draw(rt, "xrealport")
+	if realPort != "" {
+		hdr = append(hdr, randCase(rt, "X-Real-Port", "xrp")+": "+realPort)
+	}
+	xff := rapid.SampledFrom([]string{"", "", "20.4.5.6", "20.4.5.6, 30.2.2.2", "30.2.2.2, 20.4.5.6", "garbage", "20.4.5.6,", "LONG"}).Draw(rt, "xff")
+	if xff == "LONG" {
+		// a forged chain of several kilobytes
+		xff = strings.TrimSuffix(strings.Repeat("20.4.5.6, ", rapid.SampledFrom([]int{300, 420, 1000}).Draw(rt, "xff-entries")), ", ")
+	}
+	if xff != "" {
+		hdr = append(hdr, randCase(rt, "X-Forwarded-For", "xff")+": "+xff)
+		spoof = true
+	}
+	xfp := rapid.SampledFrom([]string{"", "", "5555", "5555, 6666", "x"}).Draw(rt, "xfp")
+	if xfp != "" {
+		hdr = append(hdr, randCase(rt, "X-Forwarded-Port", "xfp")+": "+xfp)
+	}
+	// a client may also try to have BFE's own address headers stripped by nominating them
+	// as hop-by-hop in its Connection header
+	if nom := rapid.SampledFrom([]string{"", "", "", "X-Real-Ip", "x-real-ip, x-real-port", "X-Forwarded-For", "keep-alive, X-Real-Ip, X-Real-Port, X-Forwarded-For"}).Draw(rt, "conn-nominates"); nom != "" {
+		hdr = append(hdr, "Connection: "+nom)
+		spoof = true
+	}
+	target := fmt.Sprintf("/c29/%d/%d", n, ri)
+	closeHdr := ""
+	if last {
+		closeHdr = "Connection: close\r\n"
+	}
+	raw := fmt.Sprintf("GET %s HTTP/1.1\r\nHost: example.org\r\n%s%s\r\n", target, closeHdr, joinCRLF(hdr))
+	cls := []string{}
+	if trusted {
+		cls = append(cls, "trusted")
+	} else {
+		cls = append(cls, "untrusted")
+	}
+	if peer.IP.To4() == nil {
+		cls = append(cls, "peer-v6")
+	}
+	if spoof {
+		cls = append(cls, "spoof-header")
+	}
+	if ri > 0 {
+		cls = append(cls, "later-request-on-connection")
+	}
+	hk := fmt.Sprint(hdr)
+	if len(hk) > 200 {
+		hk = fmt.Sprintf("%s...(%d)", hk[:200], len(hk))
+	}
+	rec.Case(fmt.Sprintf("%v|%s|%d|%s", ranges, peer, ri, hk), spoof, cls...)
+	rec.Sample(map[string]any{"trust_ranges": ranges, "peer": peer.String(), "request_index_on_connection": ri, "headers": clipHdr(hdr)})
+	wit := map[string]any{"trust_ranges": ranges, "peer": peer.String(), "headers": clipHdr(hdr), "trusted_by_model": trusted, "request_index_on_connection": ri}
+
+	c.Write([]byte(raw))
+	_, m, _, perr := readOneResponse(c, "GET", 8*time.Second)
+	seen := w.seenFor(target)
+	w.forget(target)
+	if perr != nil || m == nil || m.Status != 200 || len(seen) != 1 || seen[0].Msg == nil {
+		// the rig itself failed (e.g. backend connect timeout on an overloaded machine):
+		// inconclusive, counted; the test fails as infrastructure only if this is frequent
+		rec.Class("rig-not-proxied")
+		*rigFailures++
+		if *rigFailures > 20 {
+			rt.Fatalf("rig: request not proxied %d times (err=%v, seen=%d)", *rigFailures, perr, len(seen))
+		}
+		return false
+	}
+	bf := lowerFields(seen[0].Msg)
+	wit["backend_saw"] = string(seen[0].Conn.Bytes())
+	routed := seen[0].Backend // b0 = c20 (client address inside 20/8), b1 = default
+	if !trusted {
+		if got := bf["x-real-ip"]; len(got) != 1 || !net.ParseIP(got[0]).Equal(peer.IP) {
+			if !rec.Fail(rt, "untrusted-x-real-ip", wit, "untrusted peer %s: backend got X-Real-Ip %q", peer, got) {
+				return false
+			}
+		}
+		if got := bf["x-real-port"]; len(got) != 1 || got[0] != fmt.Sprint(peer.Port) {
+			if !rec.Fail(rt, "untrusted-x-real-port", wit, "untrusted peer %s: backend got X-Real-Port %q", peer, got) {
+				return false
+			}
+		}
+		xf := strings.Join(bf["x-forwarded-for"], ", ")
+		parts := strings.Split(xf, ",")
+		last := strings.TrimSpace(parts[len(parts)-1])
+		if !net.ParseIP(last).Equal(peer.IP) {
+			if !rec.Fail(rt, "untrusted-xff-tail", wit, "untrusted peer %s: X-Forwarded-For %q does not end with the peer IP", peer, xf) {
+				return false
+			}
+		}
+		if routed != "b1" {
+			if !rec.Fail(rt, "untrusted-condition-spoofed", wit, "untrusted peer %s was routed by req_cip_range(20/8) as if its client address were spoofed", peer) {
+				return false
+			}
+		}
+		return true
+	}
+	// trusted: documented precedence X-Real-Ip(+Port) else first of X-Forwarded-For(+Port)
+	wantIP, wantPort := "", ""
+	if realIP != "" {
+		wantIP, wantPort = realIP, realPort
+	} else if xff != "" {
+		wantIP = strings.TrimSpace(strings.SplitN(xff, ",", 2)[0])
+		if xfp != "" {
+			wantPort = strings.TrimSpace(strings.SplitN(xfp, ",", 2)[0])
+		}
+	}
+	ip := net.ParseIP(wantIP)
+	if ip == nil {
+		rec.Class("trusted-no-valid-header")
+		return true
+	}
+	rec.Class("trusted-header-honoured-case")
+	if got := bf["x-real-ip"]; len(got) != 1 || !net.ParseIP(got[0]).Equal(ip) {
+		if !rec.Fail(rt, "trusted-x-real-ip", wit, "trusted peer %s with client address header %q: backend got X-Real-Ip %q", peer, wantIP, got) {
+			return false
+		}
+	}
+	in20 := ip.To4() != nil && ip.To4()[0] == 20
+	if (routed == "b0") != in20 {
+		if !rec.Fail(rt, "trusted-condition", wit, "trusted peer %s with client address %s: routed to %s", peer, ip, routed) {
+			return false
+		}
+	}
+	// the port that goes with the honoured address
+	if pn, perr2 := strconv.Atoi(wantPort); perr2 == nil && pn > 0 && pn < 65536 && realIP != "" && realIP2 == "" {
+		if got := bf["x-real-port"]; len(got) != 1 || got[0] != wantPort {
+			if !rec.Fail(rt, "trusted-x-real-port", wit, "trusted peer %s with X-Real-Ip %q and X-Real-Port %q (request %d on the connection): backend got X-Real-Port %q", peer, wantIP, wantPort, ri, got) {
+				return false
+			}
+		}
+	}
+	return true
+}
+
+func clipHdr(h []string) []string {
+	out := append([]string(nil), h...)
+	for i, x := range out {
+		if len(x) > 120 {
+			out[i] = fmt.Sprintf("%s...(%d bytes)", x[:120], len(x))
+		}
+	}
+	return out
 }
 
 func joinCRLF(h []string) string {
